@@ -1,6 +1,7 @@
 import SimVerif.Driver.Common
 import SimVerif.Model.Tracker
 import SimVerif.Model.BatchProtocol
+import SimVerif.Model.Constraints
 namespace SimVerif.Driver.TrkD
 open SimVerif.Wire SimVerif.Tracker SimVerif.Driver
 
@@ -23,6 +24,7 @@ structure St where
   minLen : Nat := 1             -- `visual_minimal_track_length`
   qUse : Rat := 0               -- use thresholds (Layer-G decision `useOk` is taken here)
   ownUse : Rat := 0
+  constr : List Constraints.Entry := []   -- the tracker's spatio-temporal constraint table
   constrained : Bool := false   -- spatio-temporal constraints configured (compatibility then also depends on geometry)
   featVecs : List (Nat × List Rat) := []   -- feature token ↦ the feature vector of that detection
   desynced : Bool := false      -- after `pipe` (no distance tables): the slot is only good for `cmp`
@@ -72,6 +74,31 @@ def parseG : List String → Option (List (Rat × Option Rat) × List String)
       | _, _ => none
     go n rest
   | _ => none
+
+/-- `C m (cand track gap|- dist|-)*`: per pair of the table the epoch gap and the centre distance (in units of the
+two bounding radii) that `compatible()` applied the spatio-temporal constraints to -/
+def parseC : List String → Option (List (Nat × Nat × Nat × Rat) × List String)
+  | "C" :: m :: rest => do
+    let m ← m.toNat?
+    let rec go : Nat → List String → Option (List (Nat × Nat × Nat × Rat) × List String)
+      | 0, ts => some ([], ts)
+      | k+1, f :: t :: g :: d :: ts => do
+        let (r, ts') ← go k ts
+        match f.toNat?, t.toNat?, g.toNat?, rat? d with
+        | some f, some t, some g, some d => pure ((f, t, g, d) :: r, ts')
+        | _, _, _, _ => pure (r, ts')      -- `-`: the track could not be read back
+      | _, _ => none
+    go m rest
+  | ts => some ([], ts)
+
+/-- every pair the table mentions is admitted by the constraint table for its epoch gap and distance -/
+def constrOk (cs : List Constraints.Entry) (geo : List (Nat × Nat × Nat × Rat)) : Bool :=
+  geo.all (fun (_, _, g, d) => Constraints.validate cs g d == some true)
+
+def constrNear (cs : List Constraints.Entry) (geo : List (Nat × Nat × Nat × Rat)) : Bool :=
+  geo.any (fun (_, _, g, d) => match Constraints.limitFor cs g with
+    | some e => decide (e.2 / 2 ≤ d)
+    | none => false)
 
 /-- section of the implementation answer starting with a marker -/
 def afterMarker (m : String) (ts : List String) : Option (List String) :=
@@ -363,6 +390,17 @@ def handleNew (st : St) (args : List String) : St × String :=
       let minArea := (rat? (vsec.getD 7 "")).getD 0
       let ownCollect := (rat? (vsec.getD 9 "")).getD 0
       let vCosine := vsec.getD 0 "" == "cosine"
+      let constrToks : List String := match rest.takeWhile (· != "V") with
+        | "iou" :: _ :: _ :: _ :: r => r
+        | "maha" :: _ :: _ :: r => r
+        | _ => []
+      let rec pairsOf : Nat → List String → List Constraints.Entry
+        | 0, _ => []
+        | k+1, g :: l :: r => (match g.toNat?, rat? l with
+          | some g, some l => (g, l) :: pairsOf k r
+          | _, _ => pairsOf k r)
+        | _, _ => []
+      let constr := (Constraints.addConstraints [] (pairsOf constrToks.length constrToks)).getD []
       let constrained := match rest.takeWhile (· != "V") with
         | "iou" :: _ :: _ :: n :: _ => n != "0"
         | "maha" :: _ :: n :: _ => n != "0"
@@ -374,7 +412,7 @@ def handleNew (st : St) (args : List String) : St × String :=
       ({ cfg := { maxIdle := mi, histLen := hist, batchIds := batch, thr := thr, visual := visual, maxObs := maxObs, minVotes := minVotes },
          st := {}, shards := sh, batch := batch, vshards := _vsh.toNat?.getD 1, visual := visual,
          qCollect := qCollect, minArea := minArea, ownCollect := ownCollect,
-         vCosine := vCosine, vThr := vThr, minLen := minLen, qUse := qUse, ownUse := ownUse, constrained := constrained },
+         vCosine := vCosine, vThr := vThr, minLen := minLen, qUse := qUse, ownUse := ownUse, constrained := constrained, constr := constr },
        res true true [] s!"thr={thr} visual={visual}")
     | _, _, _ => (st, bad "new args")
   | _ => (st, bad "new")
@@ -412,7 +450,11 @@ def handlePredict (st : St) (args impl : List String) : St × String :=
             match findRecs impl impl.length with
             | none => none
             | some rs =>
-              if !st.visual then gather more (if st.batch then afterTbl else ts) ((sc, ds, toEntries tbl, rs, [], (true, true, [])) :: acc) else
+              if !st.visual then
+                let geo := ((parseC afterTbl).map (·.1)).getD []
+                let cOk := constrOk st.constr geo
+                gather more (if st.batch then afterTbl else ts) ((sc, ds, toEntries tbl, rs, [],
+                  (cOk, cOk, flag (!geo.isEmpty && !st.constr.isEmpty) "constraint-checked-pairs" ++ flag (constrNear st.constr geo) "constraint-near-limit" ++ flag (!cOk) "constraint-violated")) :: acc) else
               -- VisualSORT: per detection area / own-area share → the collect decision; entries with feature distances
               match parseG afterTbl with
               | none => none
@@ -422,7 +464,11 @@ def handlePredict (st : St) (args impl : List String) : St × String :=
                       (match share with | some p => decide (st.ownCollect ≤ p) | none => true) })
                 let ves : List VEntry := tbl.map (fun (f, t, a, dd) => { det := f, tid := t, w := a.map AssignX.quantise, f := dd })
                 let decided := visualDecided st.cfg ves
-                let vg := visGate st vecs sc (epochOf (awStep st.cfg st.st) sc + 1) ds' gsec tbl
+                let geo := ((parseC afterG).map (·.1)).getD []
+                let cOk := constrOk st.constr geo
+                let vg0 := visGate st vecs sc (epochOf (awStep st.cfg st.st) sc + 1) ds' gsec tbl
+                let vg := (vg0.1 && cOk, vg0.2.1 && cOk, vg0.2.2 ++ flag (!geo.isEmpty && !st.constr.isEmpty) "constraint-checked-pairs" ++
+                  flag (constrNear st.constr geo) "constraint-near-limit" ++ flag (!cOk) "constraint-violated")
                 gather more (if st.batch then afterG else ts) ((sc, ds', positionalRest decided ves, rs, ves, vg) :: acc)
       match gather scenes impl [] with
       | none => (st, bad "predict: cannot parse implementation answer")
